@@ -382,6 +382,10 @@ func stressRep(t *testing.T, r *evid.Run, rep int) {
 	time.Sleep(time.Duration(r.N(60, 120)) * time.Millisecond)
 	close(stopDrivers)
 	wgD.Wait()
+	if rep < 2 {
+		r.Sample(map[string]any{"stress_repetition": rep, "mode": map[bool]string{true: "sole refresher", false: "background ticks + 2 refreshers"}[sole],
+			"declared": declared, "undeclared_from_cache": extra, "highest_serial_installed_on_service": w.current("d/a"), "polls_completed_so_far": r.Get("polls_completed")})
+	}
 	event.Store("close")
 	st.Close()
 	closed.Store(true)
@@ -497,6 +501,9 @@ func parkedProbe(t *testing.T, r *evid.Run, idx int) {
 	}()
 	select {
 	case <-proberDone:
+		if idx%25 == 0 {
+			r.Sample(map[string]any{"parked_probe": idx, "kind": kind, "handle_obtained_during_poll": lateHandle != nil, "result": "100 calls of every handle completed while the request was parked"})
+		}
 		r.Count("parked_probes_completed", 1)
 		r.Distinct("probe " + kind)
 	case <-time.After(5 * time.Second):
